@@ -28,8 +28,9 @@ with open(os.path.join(HERE, 'seeded', 'MATRIX.md'), 'w') as f:
             'Each change was written by an independent sub-agent that saw only the property text and a scratch worktree; it was kept after the '
             'main session confirmed (tools/verify_seeded.sh): patch applies, repository suite still 340/340, demonstration fails with the '
             'patch and passes without. Detection = quick tier of the check of the property it breaks, run against a scratch worktree; when that '
-            'check is silent the other 19 are tried and the first one that fires is recorded (tools/seeded_matrix.py).  Seven rounds of 40: '
-            '-A/-B, -C/-D, ... -M/-N; each round was told the titles of all earlier ones and asked for different, harder mechanisms.  '
+            'check is silent the other 19 are tried and the first one that fires is recorded (tools/seeded_matrix.py).  Rounds of up to 40: '
+            '-A/-B, -C/-D, ... -S/-T, a selection -U/-V; rounds 2-8 were told the titles of all earlier ones and asked for different, harder mechanisms, '
+            'rounds 9-11 saw the property text only.  '
             'Misses are discussed in DESIGN.md section 10.\n\n'
             '| id | breaks | change | needs | result |\n|---|---|---|---|---|\n')
     for r in rows:
